@@ -125,6 +125,55 @@ func evalC02Decode(c *Ctx, rp c02Replay) {
 	}
 }
 
+// forEachHybrid: payloads that carry BOTH a top-level (version-1 style) kind K1 and a nats section with kind K2 (equal or
+// different) and version absent / 1 / 2, signed by a key of every role in both layouts. The two places a version and a
+// kind can be declared must never be read inconsistently (one for the loader, another for the signed text or the role).
+func forEachHybrid(c *Ctx, cb func(tok, label, role, layout string)) {
+	roles := []byte{'O', 'A', 'U', 'N', 'C', 'X'}
+	typed := []string{"operator", "account", "user", "activation", "authorization_request", "authorization_response"}
+	for _, k1 := range typed {
+		base, err := validToken(c.R, k1, "v2")
+		must(err)
+		payloadB, _ := b64.DecodeString(strings.Split(base, ".")[1])
+		for _, k2 := range typed {
+			for _, ver := range []int{-1, 1, 2} {
+				for _, role := range roles {
+					if k1 == k2 && !strings.ContainsRune(allowedRoles[k1], rune(role)) && role != 'U' {
+						continue // same-kind hybrids: permitted issuers (and one forbidden role) are enough
+					}
+					for _, layout := range []string{"v2", "v1"} {
+						kp := kpN(role, 5)
+						payload := setJSONPath(string(payloadB), func(m map[string]interface{}) {
+							m["iss"] = pubOf(kp)
+							m["type"] = k1
+							nats, _ := m["nats"].(map[string]interface{})
+							if nats == nil {
+								nats = map[string]interface{}{}
+								m["nats"] = nats
+							}
+							nats["type"] = k2
+							if ver < 0 {
+								delete(nats, "version")
+							} else {
+								nats["version"] = ver
+							}
+						})
+						hdr := hdrV2
+						if layout == "v1" {
+							hdr = hdrV1
+						}
+						var signer nkeys.KeyPair = kp
+						if role == 'X' {
+							signer = nil
+						}
+						cb(forge(hdr, payload, signer, layout), k1+"+"+k2, string(role), layout)
+					}
+				}
+			}
+		}
+	}
+}
+
 func runC02(c *Ctx) {
 	c.Res.Rule = "complete finite matrix: claim kind (7) x issuer role (operator, account, user, server, cluster, curve) x subject role x layout (v1, v2) x direction, plus hybrid payloads (top-level kind K1 with nats.type K2 != K1 and nats.version absent/1/2, all roles, both signing layouts). Decode side: forged-but-correctly-signed tokens (payload of a valid token with iss replaced - and, in half of the cells, sub set to the same key; in a third each, issuer_account resp. aud naming an account key -, re-signed by the forged key in the chosen layout), through Decode, DecodeGeneric and every typed decoder. Encode side: every kind x signer role x subject role through the real Encode. Oracle: accepted => issuer role in the property's table and typed decoders only return/accept their own kind, and the kind the returned claims declare (ClaimType) is the kind of the object built and role-checked; Encode with a non-permitted signer or non-fitting subject => error and empty token. non-trivial = distinct matrix cells."
 	roles := []byte{'O', 'A', 'U', 'N', 'C', 'X'}
@@ -185,50 +234,10 @@ func runC02(c *Ctx) {
 			}
 		}
 	}
-	// ---------- hybrid payloads: a top-level (v1 style) kind AND a different kind/version in the nats section ----------
-	typed := []string{"operator", "account", "user", "activation", "authorization_request", "authorization_response"}
-	for _, k1 := range typed {
-		base, err := validToken(c.R, k1, "v2")
-		must(err)
-		payloadB, _ := b64.DecodeString(strings.Split(base, ".")[1])
-		for _, k2 := range typed {
-			if k1 == k2 {
-				continue
-			}
-			for _, ver := range []int{-1, 1, 2} {
-				for _, role := range roles {
-					for _, layout := range []string{"v2", "v1"} {
-						kp := kpN(role, 5)
-						payload := setJSONPath(string(payloadB), func(m map[string]interface{}) {
-							m["iss"] = pubOf(kp)
-							m["type"] = k1
-							nats, _ := m["nats"].(map[string]interface{})
-							if nats == nil {
-								nats = map[string]interface{}{}
-								m["nats"] = nats
-							}
-							nats["type"] = k2
-							if ver < 0 {
-								delete(nats, "version")
-							} else {
-								nats["version"] = ver
-							}
-						})
-						hdr := hdrV2
-						if layout == "v1" {
-							hdr = hdrV1
-						}
-						var signer nkeys.KeyPair = kp
-						if role == 'X' {
-							signer = nil
-						}
-						tok := forge(hdr, payload, signer, layout)
-						evalC02Decode(c, c02Replay{"decode", k1 + "+" + k2, string(role), "", layout + "-hybrid", tok})
-					}
-				}
-			}
-		}
-	}
+	// ---------- hybrid payloads: a top-level (v1 style) kind AND a kind/version in the nats section ----------
+	forEachHybrid(c, func(tok, label, role, layout string) {
+		evalC02Decode(c, c02Replay{"decode", label, role, "", layout + "-hybrid", tok})
+	})
 	// ---------- encode side ----------
 	subjects := map[byte]string{'O': pubOf(kpN('O', 3)), 'A': pubOf(kpN('A', 3)), 'U': pubOf(kpN('U', 3)), 'N': pubOf(kpN('N', 3)), 'C': pubOf(kpN('C', 3)), 'X': pubOf(kpN('X', 3)), '-': "not-a-key"}
 	for _, kind := range allKinds {
